@@ -537,6 +537,8 @@ class TaskScenario(ScenarioData):
                         self.slotStartOffset = offset_seconds
                     else:
                         self.slotStartOffset = 0.0
+                    # The offset only applies to the slot that contains the bound
+                    self._slotStartOffsetIdx = slot_idx
                     self.currentSlotIdx = slot_idx
             else:
                 # ALAP (backward) scheduling
@@ -872,16 +874,27 @@ class TaskScenario(ScenarioData):
         # Clamp to slot duration (shouldn't exceed, but safety check)
         seconds_into_slot = min(seconds_into_slot, slot_duration_seconds)
 
+        # The task holds [grant_start, slot end) of this slot on its resource(s): it may
+        # have entered a slot that an earlier task (or the dependency bound) had partly used.
+        granted_seconds = float(slot_duration_seconds)
+        if resource:
+            granted = self._grantedSeconds(resource)
+            if granted is not None:
+                granted_seconds = granted
+        grant_start = max(0.0, slot_duration_seconds - granted_seconds)
+        seconds_into_slot = min(seconds_into_slot, granted_seconds)
+
         # Calculate the precise end time, rounded to nearest second
         # (Gold standard uses second-level precision)
         seconds_rounded = round(seconds_into_slot)
 
         if forward:
-            # For forward scheduling, end time is offset from slot start
+            # For forward scheduling, the work of this slot starts where the grant starts
+            end_offset = round(grant_start + seconds_into_slot)
             if slot_start is not None:
-                precise_end = slot_start + timedelta(seconds=seconds_rounded)
+                precise_end = slot_start + timedelta(seconds=end_offset)
             else:
-                precise_end = self.project["start"] + timedelta(seconds=seconds_rounded)
+                precise_end = self.project["start"] + timedelta(seconds=end_offset)
         else:
             # For backward scheduling, we're calculating the START time
             # The start is at the END of the slot minus unused time
@@ -893,26 +906,29 @@ class TaskScenario(ScenarioData):
             else:
                 precise_end = self.project["start"]
 
-        # Release unused portion of the slot back to the resource
-        seconds_unused = slot_duration_seconds - seconds_into_slot
+        # Give back what the task does not need. All members of a team are released alike.
+        seconds_unused = granted_seconds - seconds_into_slot
         if seconds_unused > 0 and resource:
-            res_scenario = resource.data[self.scenarioIdx] if resource.data else None
-            if res_scenario:
+            team = getattr(self, "_selectedResources", None) or [resource]
+            if resource not in team:
+                team = [resource]
+            for member in team:
+                res_scenario = member.data[self.scenarioIdx] if member.data else None
+                if not res_scenario or self.currentSlotIdx not in res_scenario.slotTaskUsage:
+                    continue
                 # Update the per-task usage record to reflect actual usage
-                if self.currentSlotIdx in res_scenario.slotTaskUsage:
-                    # Find and update this task's entry
-                    for i, (task, _secs) in enumerate(res_scenario.slotTaskUsage[self.currentSlotIdx]):
-                        if task == self.property:
-                            res_scenario.slotTaskUsage[self.currentSlotIdx][i] = (task, seconds_into_slot)
-                            break
-
-                # Update total slotSecondsUsed to release unused time
-                # Old value was full slot duration, new value is actual usage
-                old_total = res_scenario.slotSecondsUsed.get(self.currentSlotIdx, slot_duration_seconds)
-                # Subtract what was previously booked (full slot) and add actual usage
-                res_scenario.slotSecondsUsed[self.currentSlotIdx] = (
-                    old_total - slot_duration_seconds + seconds_into_slot
-                )
+                for i, (task, secs) in enumerate(res_scenario.slotTaskUsage[self.currentSlotIdx]):
+                    if task == self.property:
+                        kept = min(secs, seconds_into_slot)
+                        res_scenario.slotTaskUsage[self.currentSlotIdx][i] = (task, kept)
+                        if forward:
+                            # The tail of the slot becomes available to other tasks
+                            old_total = res_scenario.slotSecondsUsed.get(self.currentSlotIdx, slot_duration_seconds)
+                            res_scenario.slotSecondsUsed[self.currentSlotIdx] = max(0.0, old_total - (secs - kept))
+                        # Backward: the work sits at the END of the slot. Free time is handed
+                        # out from the front of what is left, so the unused head in front of
+                        # the work cannot be offered to anybody without overlapping it.
+                        break
 
         return precise_end, seconds_into_slot
 
@@ -1352,13 +1368,35 @@ class TaskScenario(ScenarioData):
                 # Can't book - one or more resources unavailable
                 return
 
+            # Team members work at the same instants: inside a partly used slot they
+            # all start where the busiest member (or the dependency bound) allows.
+            slot_idx = self.currentSlotIdx if self.currentSlotIdx is not None else 0
+            common_used = 0.0
+            if (
+                getattr(self, "slotStartOffset", 0.0) > 0
+                and self.doneEffort == 0
+                and slot_idx == getattr(self, "_slotStartOffsetIdx", slot_idx)
+            ):
+                common_used = self.slotStartOffset
+            for resource in resources_to_book:
+                common_used = max(common_used, resource.data[self.scenarioIdx].slotSecondsUsed.get(slot_idx, 0.0))
+            if common_used > 0:
+                for resource in resources_to_book:
+                    res_scenario = resource.data[self.scenarioIdx]
+                    if res_scenario.slotSecondsUsed.get(slot_idx, 0.0) < common_used:
+                        res_scenario.slotSecondsUsed[slot_idx] = common_used
+
         # Now book all resources (or single resource for non-team tasks)
         booked_any = False
         total_effort_this_slot = 0.0
+        grant_start_seconds = 0.0
         for resource in resources_to_book:
             effort_gained = self.bookResource(resource)
             if effort_gained > 0:
                 booked_any = True
+                # A grant always runs to the end of the slot; it begins where the
+                # time already used in that slot (or reserved for the bound) ends.
+                grant_start_seconds = max(grant_start_seconds, self._grantStartSeconds(resource))
                 # Track maximum effort from any single resource (not sum)
                 # For multi-resource effort tasks, we count clock time not person-hours
                 total_effort_this_slot = max(total_effort_this_slot, effort_gained)
@@ -1380,12 +1418,35 @@ class TaskScenario(ScenarioData):
 
                     slot_idx = self.currentSlotIdx if self.currentSlotIdx is not None else 0
                     start_date = self.project.idxToDate(slot_idx)
-                    if start_date is not None and hasattr(self, "slotStartOffset") and self.slotStartOffset > 0:
-                        start_date = start_date + timedelta(seconds=self.slotStartOffset)
+                    if start_date is not None and grant_start_seconds > 0:
+                        # The slot is shared: work begins where the earlier use of the
+                        # slot (or the dependency bound) ends, not at the slot start.
+                        start_date = start_date + timedelta(seconds=round(grant_start_seconds))
                     self.property[("start", self.scenarioIdx)] = start_date
 
             # Accumulate effort (counted once per slot, not per resource)
             self.doneEffort += total_effort_this_slot
+
+    def _grantedSeconds(self, resource: Any, slot_idx: Optional[int] = None) -> Optional[float]:
+        """Seconds of the slot currently booked for this task on the given resource."""
+        res_scenario = resource.data[self.scenarioIdx] if resource.data else None
+        if res_scenario is None:
+            return None
+        if slot_idx is None:
+            slot_idx = self.currentSlotIdx if self.currentSlotIdx is not None else 0
+        granted = None
+        for task, seconds in res_scenario.slotTaskUsage.get(slot_idx, []):
+            if task == self.property:
+                granted = seconds if granted is None else granted + seconds
+        return granted
+
+    def _grantStartSeconds(self, resource: Any) -> float:
+        """Offset into the current slot at which this task's grant on the resource begins."""
+        slot_duration: float = self.project.attributes.get("scheduleGranularity", 3600)
+        granted = self._grantedSeconds(resource)
+        if granted is None:
+            return 0.0
+        return max(0.0, slot_duration - granted)
 
     def getAllLimits(self) -> list[Any]:
         """
@@ -1450,7 +1511,12 @@ class TaskScenario(ScenarioData):
 
         # For the FIRST slot of this task, apply start offset from dependency
         # This marks the portion already used by predecessor as unavailable
-        if hasattr(self, "slotStartOffset") and self.slotStartOffset > 0 and self.doneEffort == 0:
+        if (
+            hasattr(self, "slotStartOffset")
+            and self.slotStartOffset > 0
+            and self.doneEffort == 0
+            and self.currentSlotIdx == getattr(self, "_slotStartOffsetIdx", self.currentSlotIdx)
+        ):
             # Mark the offset portion as used (by predecessor task)
             current_used = res_scenario.slotSecondsUsed.get(self.currentSlotIdx, 0.0)
             if current_used < self.slotStartOffset:
